@@ -54,6 +54,39 @@ pub fn dense_case(nin: usize, nout: usize, act: Act, bias: bool) -> Case {
     }
 }
 
+/// Float32 reading of "activation(W x + b)" for activations with a bounded range: whatever finite pre-activation the
+/// layer reaches, a sigmoid / tanh / soft-max dense layer outputs finite values inside the function's range (no NaN from an
+/// overflowing or vanishing intermediate). One input, `nout` outputs, symbolic weights with |.| <= 2^20.
+pub fn dense_range_case(nout: usize, act: Act) -> Case {
+    Case {
+        id: format!("C02/dense-range/1to{}/{}", nout, act.name()),
+        property: "C02",
+        family: "Dense::forward",
+        class: format!("range-{}", act.name()),
+        no_ties: false,
+        max_paths: 64,
+        run: Box::new(move |ctx| {
+            let mut layer = Layer::Dense(Dense::create(Shape::Single(1), Shape::Single(nout), &act.lib(), true, None));
+            ctx.fp_bound = Some(1048576.0);
+            let w = v2(ctx, "w", nout, 1);
+            let b = v1(ctx, "b", nout);
+            let x = v1(ctx, "x", 1);
+            hooks::set_params(&mut layer, vec![t2(&w)], Some(t1(&b)));
+            let dense = match &layer {
+                Layer::Dense(d) => d,
+                _ => unreachable!(),
+            };
+            let (_, post) = dense.forward(&t1(&x));
+            let post = d1(&post);
+            ctx.fact("count", post.len() == nout, String::new());
+            let lo = if act == Act::Tanh { lit(-1.0) } else { lit(0.0) };
+            for i in 0..post.len() {
+                ctx.claim(&format!("post-in-range[{}]", i), Th::Fp, B::within(post[i], lo, lit(1.0)));
+            }
+        }),
+    }
+}
+
 fn set_kernels(layer: &mut Layer, ks: &V4) {
     hooks::set_params(layer, ks.iter().map(|k| t3(k)).collect(), None);
 }
@@ -281,6 +314,12 @@ pub fn cases(tier: Tier, seed: u64) -> Vec<Case> {
             }
         }
     }
+    out.push(dense_range_case(2, Act::Softmax));
+    out.push(dense_range_case(1, Act::Sigmoid));
+    out.push(dense_range_case(1, Act::Tanh));
+    if full {
+        out.push(dense_range_case(3, Act::Softmax));
+    }
     // convolution
     let size = |c: &Cfg| {
         let (oh, ow) = c.conv_out().unwrap();
@@ -293,6 +332,13 @@ pub fn cases(tier: Tier, seed: u64) -> Vec<Case> {
         let (oh, ow) = c.conv_out().unwrap();
         let act = if act.forks() && (c.f * oh * ow > 6 || c.sd_class().contains("pad>k-1")) { Act::Linear } else { act };
         out.push(conv_case(c.clone(), act, i % 3 == 1));
+    }
+    // beyond the lattice: strides 4..6 against dilations 2..4
+    for (i, c) in extended_lattice().into_iter().enumerate() {
+        let always = c.s.0.max(c.s.1) == 4 && c.d.0.max(c.d.1) == 2 && c.p == (0, 0);
+        if full || always || mix(i as u64 ^ seed ^ 0xe02) % 9 == 0 {
+            out.push(conv_case(c, Act::Linear, i % 2 == 1));
+        }
     }
     // deconvolution (dilation fixed to 1)
     let dsize = |c: &Cfg| match c.deconv_out() {
